@@ -406,4 +406,28 @@ example : SyncOrder exampleWiring exampleWiring.actualDevices := by
   · exact List.Perm.refl _
   · rfl
 
+/-! ### the same facade object scanned again (reconnect of the blocking client) -/
+
+/-- both scans rebuild every inventory list by assignment (generated from the source) -/
+theorem scans_rebuild_by_assignment :
+    (∀ u ∈ syncScanUpdates, u.2 = true) ∧ (∀ u ∈ asyncScanUpdates, u.2 = true) ∧
+    syncScanUpdates.map (·.1) = ["actual_user_devices", "_pumps", "_blowers", "_lights", "_sensors", "_binary_sensors"] ∧
+    asyncScanUpdates.map (·.1) = syncScanUpdates.map (·.1) := by decide
+
+/-- **a facade object scanned any number of times holds exactly the inventory of one scan** (each device once, hence all
+the key / unique-id / lookup theorems above keep holding after reconnects) -/
+theorem rescans_are_idempotent (fresh : Inv) (n : Nat) : scans syncScanUpdates fresh n = fresh ∧ scans asyncScanUpdates fresh n = fresh := by
+  have hs : ∀ nm ∈ ["actual_user_devices", "_pumps", "_blowers", "_lights", "_sensors", "_binary_sensors"],
+      assigned syncScanUpdates nm = true ∧ assigned asyncScanUpdates nm = true := by decide
+  have one : ∀ old : Inv, rescan syncScanUpdates old fresh = fresh ∧ rescan asyncScanUpdates old fresh = fresh := by
+    intro old
+    simp [rescan, upd, hs]
+  induction n with
+  | zero => exact one _
+  | succ k _ => exact one _
+
+/-- non-vacuity: a scan that APPENDS to the sensor list doubles it on the second scan -/
+example : (scans [("actual_user_devices", true), ("_pumps", true), ("_blowers", true), ("_lights", true), ("_sensors", false), ("_binary_sensors", true)]
+            { emptyInv with sensors := [⟨"K", "k", "t"⟩] } 1).sensors.length = 2 := by decide
+
 end GeckoModel.C12
